@@ -200,6 +200,8 @@ Definition c14_run (v : val) : val :=
   else if mode =? 4 then VI (crc32 (byte_bits (vints (vnth 1 v))))
   else if mode =? 5 then
     VL [VI (scte35_pts (c14_sched (vnth 1 v)) (vint (vnth 2 v))); VI (scte35_break (c14_sched (vnth 1 v)))]
+  else if mode =? 6 then
+    of_ints (bits_bytes (enc_signal (event_signal (c14_sched (vnth 1 v)) (vint (vnth 2 v)) (vint (vnth 3 v)) (vint (vnth 4 v)))))
   else verr 997.
 
 Definition dispatch (comp : Z) (v : val) : val :=
